@@ -329,7 +329,11 @@ def check_cs(case) -> Outcome:
     oob = (x < lo) | (x > hi)
     state = {}
     try:
-        res = fn(x, _state=state, **kwargs)
+        xin = x
+        if case.get("as_int") and np.all(x == np.round(x)) and abs(hi) < 1e9:
+            xin = x.astype(np.int64)  # same values, integer dtype (bounds and knots stay non-integers)
+            out.label("integer-dtype-input")
+        res = fn(xin, _state=state, **kwargs)
     except ValueError as e:
         if mode == "raise" and oob.any():
             out.label("raise-ok")
@@ -423,7 +427,11 @@ def check_cs(case) -> Outcome:
         if mode == "raise":
             xf = np.clip(xf, lo, hi)
         st3 = dict(state)
-        M2 = as_matrix(fn(xf, _state=st3, **kwargs), len(xf))
+        xfin = xf
+        if case.get("as_int") and mode != "raise" and abs(hi) < 1e9 and abs(lo) < 1e9:
+            xf = np.round(xf)
+            xfin = xf.astype(np.int64)
+        M2 = as_matrix(fn(xfin, _state=st3, **kwargs), len(xf))
         if not all(np.array_equal(np.asarray(st3[kk]), np.asarray(state[kk])) for kk in state if state[kk] is not None):
             out.fail("cs-state-changed-on-reuse", f"{kwargs}", **feat)
         compare(M2, xf, "follow-up")
@@ -439,6 +447,7 @@ def gen_cs():
             "dist": st.sampled_from(["uniform", "uniform", "normal", "offset", "tight", "tiny"]),
             "round": st.sampled_from([None, None, None, 1]),
             "cyclic": st.booleans(),
+            "as_int": st.booleans(),
             "extrapolation": st.sampled_from(["raise", "clip", "na", "zero", "extend", "extend"]),
             "knot_order": st.sampled_from([0, 0, 1, 2, 3]),
             "bounds": st.sampled_from(["data", "data", "inner", "outer", "zero"]),
